@@ -1229,6 +1229,16 @@ def mon_ccrun(spec, run):
 MONITORS["CCrun"] = mon_ccrun
 
 
+def mon_apirun(spec, run):
+    """not a property monitor: executes the L7 model of the YncaApi program on the run (harness/apimodel.py); the verdict travels in the result"""
+    from . import apimodel
+    run.results["api"] = apimodel.check(spec, run, getattr(run, "preempt_budget", 0))
+    return []
+
+
+MONITORS["APIrun"] = mon_apirun
+
+
 def mon_c16_two(spec, run):
     """close() of a second connection from inside a callback of the first one: it returns without raising, and once it has returned nothing
     more is written to that connection's port, the port is closed and its threads (R2, S2) terminate"""
